@@ -414,8 +414,15 @@ func forwardScanObligation(p *core.Prog, fn *ssa.Function, b *ssa.BasicBlock, c 
 					if cst, isC := constInt(other); isC && cst <= 0 {
 						continue
 					}
+					// the guard must be updated on every path from the scan back to the loop head: a `continue` that
+					// bypasses the update lets those iterations repeat for free
+					if through := guardKeptFrom(ph, b, comp, scc); through != nil {
+						o.Status = core.Violated
+						o.Detail = fmt.Sprintf("the budget/progress guard (%s) is not updated on a path from the scan back to the loop head (through block %d, near %s): iterations taking that path are never charged, so the guard does not bound them", ph.Comment, through.Index, p.Pos(lastPos(through)))
+						return o, true
+					}
 					o.Status = core.Discharged
-					o.Detail = "a loop-carried guard (" + ph.Comment + ") is compared in a branch that leaves the loop: the number or extent of repeated scans is bounded"
+					o.Detail = "a loop-carried guard (" + ph.Comment + ") is compared in a branch that leaves the loop and updated on every path from the scan back to the loop head"
 					return o, true
 				}
 			}
@@ -530,4 +537,68 @@ func fromReverseScan(v ssa.Value, depth int) bool {
 		}
 	}
 	return false
+}
+
+
+// guardKeptFrom: an in-loop incoming edge of the guard's phi web carries the old value on a path that passed block from;
+// returns the predecessor block of that edge, or nil. The monotone idiom `if x > g { g = x }` does not count.
+func guardKeptFrom(phi *ssa.Phi, from *ssa.BasicBlock, comp []int, scc int) *ssa.BasicBlock {
+	web, _ := phiWebLeaves(phi, comp)
+	var oldVia func(e ssa.Value, pred *ssa.BasicBlock, depth int) *ssa.BasicBlock
+	oldVia = func(e ssa.Value, pred *ssa.BasicBlock, depth int) *ssa.BasicBlock {
+		if depth > 6 {
+			return nil
+		}
+		if e == ssa.Value(phi) {
+			if pred == from || reachableWithin(from, pred, comp, scc, phi.Block()) {
+				return pred
+			}
+			return nil
+		}
+		p2, ok := e.(*ssa.Phi)
+		if !ok || !web[p2] || p2 == phi {
+			return nil
+		}
+		for j, e2 := range p2.Edges {
+			pj := p2.Block().Preds[j]
+			if e2 == ssa.Value(phi) {
+				if iff, ok := pj.Instrs[len(pj.Instrs)-1].(*ssa.If); ok {
+					if bo, ok := iff.Cond.(*ssa.BinOp); ok && (bo.Op == token.GTR || bo.Op == token.LSS || bo.Op == token.GEQ || bo.Op == token.LEQ) {
+						mono := false
+						for _, e3 := range p2.Edges {
+							if e3 != ssa.Value(phi) && ((sameExpr(bo.X, e3, 0) && bo.Y == ssa.Value(phi)) || (sameExpr(bo.Y, e3, 0) && bo.X == ssa.Value(phi))) {
+								mono = true
+							}
+						}
+						if mono {
+							continue
+						}
+					}
+				}
+			}
+			if w := oldVia(e2, pj, depth+1); w != nil {
+				return w
+			}
+		}
+		return nil
+	}
+	for i, e := range phi.Edges {
+		pred := phi.Block().Preds[i]
+		if comp[pred.Index] != scc {
+			continue
+		}
+		if w := oldVia(e, pred, 0); w != nil {
+			return w
+		}
+	}
+	return nil
+}
+
+func lastPos(b *ssa.BasicBlock) token.Pos {
+	for i := len(b.Instrs) - 1; i >= 0; i-- {
+		if b.Instrs[i].Pos().IsValid() {
+			return b.Instrs[i].Pos()
+		}
+	}
+	return token.NoPos
 }
